@@ -133,7 +133,7 @@ class Program:
         self.field_owner = {}
         for cpp, objs in zip(self.cpps, asts):
             for o in objs:
-                if o.get('kind') == 'VarDecl' and 'includedFrom' not in o.get('loc', {}) and \
+                if o.get('kind') in ('VarDecl', 'CXXRecordDecl', 'ClassTemplateSpecializationDecl', 'ClassTemplateDecl', 'NamespaceDecl') and 'includedFrom' not in o.get('loc', {}) and \
                         'includedFrom' not in o.get('range', {}).get('begin', {}) and \
                         (o.get('loc', {}).get('file', cpp) == cpp):
                     o['_main_file_of'] = cpp
@@ -145,6 +145,8 @@ class Program:
         k = o.get('kind')
         if k == 'NamespaceDecl':
             for c in o.get('inner', []):
+                if '_main_file_of' in o and isinstance(c, dict):
+                    c['_main_file_of'] = o['_main_file_of']
                 self._index(c, None, ns + [o.get('name', '')])
         elif k == 'EnumDecl':
             if 'inner' in o and o.get('name'):
@@ -169,12 +171,26 @@ class Program:
                         self.enum_const[c['name']] = (o['name'], v)
         elif k in ('TypeAliasDecl', 'TypedefDecl'):
             self.aliases.setdefault(o['name'], o)
-        elif k == 'CXXRecordDecl':
+        elif k == 'ClassTemplateDecl':
+            for c in o.get('inner', []):
+                if c.get('kind') == 'ClassTemplateSpecializationDecl':
+                    if '_main_file_of' in o:
+                        c['_main_file_of'] = o['_main_file_of']
+                    self._index(c, None, ns)
+        elif k in ('CXXRecordDecl', 'ClassTemplateSpecializationDecl'):
             if o.get('completeDefinition') and o.get('name'):
-                if o['name'] not in self.records:
-                    self.records[o['name']] = o
+                rname = o['name']
+                if k == 'ClassTemplateSpecializationDecl':
+                    for a in targs_of(o):
+                        rname += '_' + (str(a['value']).replace('-', 'm') if 'value' in a else sanitize(a.get('type', {}).get('qualType', 'T')))
+                    o['_tmpl_name'] = o['name']
+                o['name'] = rname
+                if rname not in self.records:
+                    self.records[rname] = o
                 self.rec_by_id[o['id']] = o
                 for c in o.get('inner', []):
+                    if '_main_file_of' in o:
+                        c['_main_file_of'] = o['_main_file_of']
                     self._index(c, o, ns)
         elif k in ('FunctionDecl', 'CXXMethodDecl', 'CXXConstructorDecl'):
             self._add_func(o, parent_rec)
@@ -184,8 +200,12 @@ class Program:
                     self._add_func(c, parent_rec)
         elif k == 'VarDecl':
             self.global_by_id[o['id']] = o
+            o['_cname'] = o['name'] if parent_rec is None else parent_rec['name'] + '__' + o['name']
             if parent_rec is not None:
-                return  # static data members are handled on demand (unsupported unless scalar const)
+                has_init = any(x.get('kind') not in ('FullComment',) for x in o.get('inner', []))
+                if has_init or o['_cname'] not in self.globals:
+                    self.globals[o['_cname']] = o
+                return
             prev = self.globals.get(o['name'])
             has_init = any(x.get('kind') not in ('FullComment',) for x in o.get('inner', []))
             if prev is None:
@@ -263,14 +283,14 @@ class Program:
 
 
 class Emitter:
-    def __init__(self, prog, contracts=None, loopc=None, nobody=(), hooks=None):
+    def __init__(self, prog, contracts=None, loopc=None, nobody=(), hooks=None, force_globals=()):
         self.p = prog
         self.contracts = contracts or {}
         self.loopc = loopc or {}
         self.nobody = set(nobody)
         self.hooks = hooks or {}
         self.needed_funcs = OrderedDict()
-        self.needed_globals = OrderedDict()
+        self.needed_globals = OrderedDict((g, True) for g in force_globals)
         self.needed_records = OrderedDict()
         self.loops = []           # (cname, ordinal, header text)
         self.rule_hits = {}
@@ -302,6 +322,9 @@ class Emitter:
             break
         if q.endswith('&&'):
             raise Unsupported('rvalue reference type ' + q)
+        if q.endswith('&') and self.byval_ref(const + q):
+            self.hit('const T& of a scalar / small struct -> by value')
+            return self.ctype_s(q[:-1].strip())
         if q.endswith('&'):
             inner = self.ctype_s(const + q[:-1].strip())
             if inner.startswith('VECVIEW:'):
@@ -353,8 +376,30 @@ class Emitter:
             return inner
         return self.ctype_s(q) + ' ' + name
 
+    BYVAL_STRUCTS = ('Score',)
+
+    def byval_ref(self, q):
+        """`const T&` with T arithmetic, enum or a small scalar-only struct is passed by value (no aliasing is observable:
+        the callee cannot write through it and the translated callers do not modify the argument during the call)."""
+        q = q.strip()
+        if not q.endswith('&') or q.endswith('&&'):
+            return False
+        base = q[:-1].strip()
+        if not (base.startswith('const ') or base.endswith(' const')):
+            return False
+        base = base.replace('const ', '').replace(' const', '').strip()
+        b2 = base.split('::')[-1]
+        if base in BUILTIN or re.fullmatch(r'u?int\d+_t', base) or b2 in self.p.enums or b2 in self.BYVAL_STRUCTS:
+            return True
+        if b2 in self.p.aliases:
+            return self.byval_ref('const ' + qt(self.p.aliases[b2]['type']) + ' &')
+        return False
+
     def is_ref(self, t):
-        return qt(t).rstrip().endswith('&')
+        q = qt(t).rstrip()
+        if self.byval_ref(q):
+            return False
+        return q.endswith('&')
 
     # ------------------------------------------------------------------ names
     def lname(self, name):
@@ -384,6 +429,10 @@ class Emitter:
         inner = self.e(n['inner'][0])
         if ck in ('ArrayToPointerDecay', 'FunctionToPointerDecay', 'NoOp', 'BuiltinFnToFnPtr'):
             return inner
+        if ck == 'FloatingToIntegral':
+            b = self.ftrunc_mul(n)
+            if b is not None:
+                return b
         if ck in ('IntegralCast', 'IntegralToFloating', 'FloatingToIntegral', 'FloatingCast'):
             return '((%s)%s)' % (self.ctype(n['type']), inner)
         if ck in ('IntegralToBoolean', 'PointerToBoolean', 'FloatingToBoolean'):
@@ -392,10 +441,33 @@ class Emitter:
             return '((%s)0)' % self.ctype(n['type'])
         if ck == 'UncheckedDerivedToBase':
             self.hit('UncheckedDerivedToBase -> base sub-object is the leading fields')
-            return '((%s)%s)' % (self.ctype(n['type']), inner) if qt(n['type']).rstrip().endswith('*') else inner
+            return inner
         if ck == 'ConstructorConversion':
             return inner
         raise Unsupported('castKind %s in %s' % (ck, self.cur_fn))
+
+    def ftrunc_mul(self, n):
+        """(integer)(<double literal> * (double)<int expression>)  ->  verif_ftrunc_mul(literal, expression).
+        The binding's body is the same floating-point computation; a job may replace the call by an integer contract
+        that is validated by exhaustive native enumeration (SAT back ends do not decide 53-bit multipliers)."""
+        x = n['inner'][0]
+        while x['kind'] == 'ParenExpr':
+            x = x['inner'][0]
+        if x['kind'] != 'BinaryOperator' or x.get('opcode') != '*' or self.ctype(n['type']) != 'int64_t':
+            return None
+        a, b = x['inner']
+        def lit(y):
+            return y if y['kind'] == 'FloatingLiteral' and y['type']['qualType'] == 'double' else None
+        def conv(y):
+            if y['kind'] == 'ImplicitCastExpr' and y.get('castKind') == 'IntegralToFloating' and self.ctype(y['inner'][0]['type']) == 'int':
+                return y['inner'][0]
+            return None
+        c, e = (lit(a), conv(b)) if lit(a) is not None else (lit(b), conv(a))
+        if c is None or e is None:
+            return None
+        self.hit('(int64)(double literal * (double)int) -> verif_ftrunc_mul binding (same computation; integer contract optional)')
+        self.bindings_used['ftrunc_mul'] = ('ftrunc_mul', '')
+        return 'verif_ftrunc_mul(%s, %s)' % (self.e(c), self.e(e))
 
     def e_CStyleCastExpr(self, n):
         ck = n.get('castKind')
@@ -480,10 +552,11 @@ class Emitter:
                 nm = self.lname(r['name'])
                 return '(*%s)' % nm if self.is_ref(r['type']) else nm
             g = self.p.global_by_id.get(r['id'])
-            if g is None and r['name'] not in self.p.globals:
+            cn = g['_cname'] if g is not None and '_cname' in g else r['name']
+            if cn not in self.p.globals:
                 raise Unsupported('reference to unknown variable ' + r['name'])
-            self.needed_globals[r['name']] = True
-            return r['name']
+            self.needed_globals[cn] = True
+            return cn
         if rk == 'NonTypeTemplateParmDecl':
             raise Unsupported('uninstantiated template parameter ' + r['name'])
         raise Unsupported('DeclRefExpr to ' + rk)
@@ -606,6 +679,18 @@ class Emitter:
             self.hit('abs -> verif_abs_<type>')
             self.bindings_used['abs_%s' % sanitize(t)] = ('abs', t)
             return 'verif_abs_%s(%s)' % (sanitize(t), self.e(argn[0]))
+        if nm in ('begin', 'end') and len(argn) == 1:
+            at = qt(argn[0]['type'])
+            m = re.match(r'^(.*?)\[(\d+)\]$', at)
+            if m:
+                self.hit('std::begin/std::end of a built-in array -> pointer / pointer + N')
+                a = self.e(argn[0])
+                return '(&%s[0])' % a if nm == 'begin' else '(&%s[0] + %s)' % (a, m.group(2))
+        if nm == 'find' and len(argn) == 3 and t.endswith('*'):
+            self.hit('std::find on a pointer range -> verif_find_<type> (linear search)')
+            et = t.replace('const ', '').replace('*', '').strip()
+            self.bindings_used['find_' + sanitize(et)] = ('find', et)
+            return 'verif_find_%s(%s, %s, %s)' % (sanitize(et), self.e(argn[0]), self.e(argn[1]), self.e(argn[2]))
         if nm in ('pow', 'exp', 'log', 'floor', 'sqrt') and t == 'double':
             self.hit('libm %s -> verif_%s (assumed contract)' % (nm, nm))
             self.bindings_used[nm] = (nm, t)
@@ -716,8 +801,45 @@ class Emitter:
             return '(%s ? %s : %s)' % (self.e(c), self.str_from(a), self.str_from(b))
         raise Unsupported('std::string constructed from a non-literal in ' + str(self.cur_fn))
 
+    def simple_ctor(self, rec, ctor_type, nargs):
+        """constructor whose body is empty and whose initialisers set fields from parameters/constants ->
+        list of (field, param index or expression node)"""
+        for c in rec.get('inner', []):
+            if c.get('kind') != 'CXXConstructorDecl' or c['type']['qualType'] != ctor_type:
+                continue
+            body = func_body(c)
+            if body is None or body.get('inner'):
+                return None
+            ps = params_of(c)
+            if len(ps) != nargs:
+                continue
+            pid = {p['id']: i for i, p in enumerate(ps)}
+            out = []
+            for ini in c.get('inner', []):
+                if ini.get('kind') != 'CXXCtorInitializer':
+                    continue
+                if 'anyInit' not in ini:
+                    return None
+                out.append((ini['anyInit']['name'], ini['inner'][0], pid))
+            return out
+        return None
+
     def construct(self, n):
         ct = n.get('ctorType', {}).get('qualType', '')
+        rq = qt(n['type']).replace('const ', '').strip().split('::')[-1]
+        rec = self.p.records.get(rq)
+        if rec is not None:
+            args = [a for a in n.get('inner', []) if a.get('kind') != 'CXXDefaultArgExpr']
+            sc = self.simple_ctor(rec, ct, len(args))
+            if sc is not None:
+                self.hit('constructor with initialiser list only -> compound literal')
+                argtxt = [self.e(a) for a in args]
+                fields = {}
+                for fld, expr, pid in sc:
+                    fields[fld] = self.subst_params(expr, pid, argtxt)
+                order = [c['name'] for c in rec.get('inner', []) if c.get('kind') == 'FieldDecl']
+                self.needed_records[rq] = True
+                return '((struct %s){%s})' % (rq, ', '.join(fields.get(f, '0') for f in order))
         if 'basic_string' in qt(n['type']) or qt(n['type']).endswith('std::string'):
             if ct.startswith('void (const char *'):
                 self.hit('std::string(const char*) from a literal -> compound literal')
@@ -725,6 +847,20 @@ class Emitter:
         raise Unsupported('constructor call %s in %s' % (n.get('ctorType', {}).get('qualType'), self.cur_fn))
 
     e_CXXTemporaryObjectExpr = e_CXXConstructExpr
+
+    def subst_params(self, expr, pid, argtxt):
+        """print a constructor initialiser expression with its parameters replaced by the (already printed) arguments"""
+        saved = self.e_DeclRefExpr
+        def dre(n2):
+            r = n2['referencedDecl']
+            if r['kind'] == 'ParmVarDecl' and r['id'] in pid:
+                return '(' + argtxt[pid[r['id']]] + ')'
+            return saved(n2)
+        self.e_DeclRefExpr = dre
+        try:
+            return self.e(expr)
+        finally:
+            del self.e_DeclRefExpr
 
     # ------------------------------------------------------------------ initialisers
     def init(self, n):
@@ -841,7 +977,34 @@ class Emitter:
         return '  ' * ind + '{\n' + self.s(n, ind + 1) + '  ' * ind + '}\n'
 
     def range_for(self, n, ind):
-        raise Unsupported('range-based for in ' + str(self.cur_fn))
+        """range-for over a braced list of constants -> the body once per element (only this shape)."""
+        inner = n['inner']
+        rng = inner[1]
+        def find(node, kind):
+            if not isinstance(node, dict):
+                return None
+            if node.get('kind') == kind:
+                return node
+            for c in node.get('inner', []):
+                r = find(c, kind)
+                if r is not None:
+                    return r
+            return None
+        il = find(rng, 'InitListExpr')
+        if il is None or find(rng, 'CXXStdInitializerListExpr') is None:
+            raise Unsupported('range-based for over something other than a braced list in ' + str(self.cur_fn))
+        loopvar = inner[-2]['inner'][0]
+        body = inner[-1]
+        if self.is_ref(loopvar['type']):
+            raise Unsupported('range-for with a reference loop variable')
+        self.hit('range-for over a braced list of constants -> unrolled sequence')
+        p = '  ' * ind
+        out = ''
+        for item in il.get('inner', []):
+            self.local_ids.add(loopvar['id'])
+            out += p + '{\n' + p + '  ' + self.decl(loopvar['type'], self.lname(loopvar['name'])) + ' = ' + self.e(item) + ';\n'
+            out += self.s(body, ind + 1) + p + '}\n'
+        return out
 
     def local_var(self, v):
         self.local_ids.add(v['id'])
@@ -973,7 +1136,7 @@ class Emitter:
     def global_decl(self, o):
         init = [x for x in o.get('inner', []) if x.get('kind') not in ('FullComment',)]
         q = qt(o['type'])
-        name = o['name']
+        name = o.get('_cname', o['name'])
         is_arr = '[' in q or q.strip().startswith('std::array') or q.strip().startswith('const std::array')
         const = q.strip().startswith('const ')
         if init and not is_arr and const and q.replace('const ', '').strip() in BUILTIN or \
@@ -1066,11 +1229,12 @@ class Emitter:
             for c in r.get('inner', []):
                 if c.get('kind') != 'FieldDecl':
                     continue
-                before = set(self.needed_records)
-                fields.append(self.decl(c['type'], c['name']))
-                for nr in self.needed_records:
-                    if nr not in rec_out:
-                        emit_rec(nr)
+                fd = self.decl(c['type'], c['name'])
+                fields.append(fd)
+                if '*' not in fd:
+                    for nr in re.findall(r'struct (\w+)', fd):
+                        if nr not in rec_out:
+                            emit_rec(nr)
             if any(c.get('kind') == 'CXXMethodDecl' and c.get('virtual') for c in r.get('inner', [])):
                 self.hit('virtual table pointer dropped (no virtual call is translated)')
             rec_out[name] = {'fields': fields}
@@ -1107,6 +1271,13 @@ class Emitter:
                 out.append('struct verif_string { char s[16]; size_t n; };\n'
                            'static inline const char *verif_str_at(const struct verif_string *x, size_t i) { __CPROVER_assert(i <= x->n && i < 16, "std::string index within size"); return &x->s[i]; }\n'
                            'static inline void verif_str_push(struct verif_string *x, char c) { __CPROVER_assert(x->n < 15, "verif_string capacity"); x->s[x->n] = c; x->n++; x->s[x->n] = 0; }\n')
+            elif nm == 'find':
+                out.append('static inline const %s *verif_find_%s(const %s *b, const %s *e, %s v) { const %s *p = b; while (p != e && *p != v) p++; return p; }\n' % (t, st, t, t, t, t))
+            elif nm == 'ftrunc_mul':
+                if 'verif_ftrunc_mul' in self.contracts:
+                    out.append('/* library-style binding with an integer contract (validated exhaustively, see the lemma group) */\nint64_t verif_ftrunc_mul(double c, int e)\n%s;\n' % self.contracts['verif_ftrunc_mul'])
+                else:
+                    out.append('static inline int64_t verif_ftrunc_mul(double c, int e) { return (int64_t)(c * (double)e); }\n')
             elif nm == 'throw':
                 out.append('static inline void verif_throw(void) { __CPROVER_assert(0, "no exception is thrown"); __CPROVER_assume(0); }\n')
             elif nm == 'max':
@@ -1192,7 +1363,7 @@ def const_values(prog, names):
             # link against nothing: constants are compile-time, but TU includes may need symbols -> compile whole engine lazily
             p = subprocess.run(['g++', os.path.join(td, 'c.o'), '-o', os.path.join(td, 'c')], capture_output=True, text=True)
             if p.returncode != 0:
-                objs = _engine_objs_for_consts(td, inc)
+                objs = _engine_objs_for_consts(td, inc, skip={os.path.basename(f) for f in (incl if tu_locals else [])})
                 p = subprocess.run(['g++', os.path.join(td, 'c.o'), *objs, '-o', os.path.join(td, 'c'), '-lpthread'],
                                    capture_output=True, text=True)
                 if p.returncode != 0:
@@ -1209,9 +1380,9 @@ def _defined_in_cpp(prog, name):
     return prog.globals[name].get('_main_file_of')
 
 
-def _engine_objs_for_consts(td, inc):
+def _engine_objs_for_consts(td, inc, skip=()):
     objs = []
-    srcs = [f for f in sorted(os.listdir(os.path.join(REPO, 'engine'))) if f.endswith('.cpp') and f != 'main.cpp']
+    srcs = [f for f in sorted(os.listdir(os.path.join(REPO, 'engine'))) if f.endswith('.cpp') and f != 'main.cpp' and f not in skip]
     def cc(f):
         out = os.path.join(td, f + '.o')
         subprocess.run(['g++', '-std=c++20', '-w', '-O0', '-c', *BASE_DEFINES, *inc, os.path.join(REPO, 'engine', f), '-o', out], check=True)
@@ -1221,9 +1392,9 @@ def _engine_objs_for_consts(td, inc):
     return objs
 
 
-def translate(cpps, roots, contracts=None, loopc=None, nobody=(), hooks=None):
+def translate(cpps, roots, contracts=None, loopc=None, nobody=(), hooks=None, force_globals=()):
     prog = Program(cpps)
-    em = Emitter(prog, contracts, loopc, nobody, hooks)
+    em = Emitter(prog, contracts, loopc, nobody, hooks, force_globals)
     text = em.emit(roots)
     info = {'functions': [(cn, bool(has)) for cn, (i, has) in em.done.items()],
             'loops': em.loops, 'rule_hits': em.rule_hits, 'bindings': list(em.bindings_used),
